@@ -117,7 +117,14 @@ func (m *Mast) Delete(ctx context.Context, key, value interface{}) error {
 		return fmt.Errorf("savePathForRoot: %w", err)
 	}
 	m.size--
-	for m.size <= m.shrinkBelowSize && m.height > 0 {
+	for m.height > 0 {
+		if m.size > m.shrinkBelowSize {
+			// enough entries for this height: it is still too tall if the last key of the
+			// top layer is gone, as an insert-only history would never have grown this far
+			if top, ok := m.root.(*mastNode); !ok || len(top.Key) > 0 {
+				break
+			}
+		}
 		err = m.shrink(ctx)
 		if err != nil {
 			return fmt.Errorf("shrink: %w", err)
